@@ -283,6 +283,19 @@ def run_estimators(df, meta, bound):
             sites[tag + '.missing_model.m0'] = (np.asarray(vals[False].m0W), np.asarray(vals[True].m0W))
         t = 'average_treatment_effect' if meta['outcome'] != 'binary' else 'risk_difference'
         results[tag] = ([float(getattr(vals[False], t))], [float(getattr(vals[True], t))])
+        if not custom:
+            # outcome_model(bound=...): the predictions under A=1, under A=0 AND at the observed exposure (the offset of the
+            # targeting step) are the truncated ones
+            qv = {}
+            for bd in (False, bound):
+                tq = TMLE(df, 'A', 'Y')
+                tq.exposure_model(rhs, print_results=False)
+                if miss:
+                    tq.missing_model('A + ' + rhs, print_results=False)
+                tq.outcome_model('A + ' + rhs, bound=bd, print_results=False)
+                qv[bool(bd)] = tq
+            for nm, attr in (('q1', 'QA1W'), ('q0', 'QA0W'), ('qa', 'QAW')):
+                sites['TMLE.outcome_model.' + nm] = (np.asarray(getattr(qv[False], attr), dtype=float), np.asarray(getattr(qv[True], attr), dtype=float))
 
     def iptw_schemes():
         # every weighting scheme must be built from the TRUNCATED probabilities (also the odds-type SMR weights)
